@@ -88,4 +88,21 @@ def mouseHandleEvent : List Line := [
   ⟨0, .returnS, (.var "nil"), .none⟩]
 
 
+/-- `focusHandler.focusWidget` -/
+def focusWidget : List Line := [
+  ⟨0, .ifS, (.bin "==" (.var "r.focused") (.var "v1")), .none⟩,
+  ⟨1, .returnS, (.var "nil"), .none⟩,
+  ⟨0, .define, (.pair (.var "v2") (.var "v3")), (.arg (.arg (.call (.var "r.focused.HandleEvent")) (.lit "vaxis.FocusOut{}")) (.var "TargetPhase"))⟩,
+  ⟨0, .ifS, (.bin "!=" (.var "v3") (.var "nil")), .none⟩,
+  ⟨1, .returnS, (.var "v3"), .none⟩,
+  ⟨0, .assign, (.var "r.focused"), (.var "v1")⟩,
+  ⟨0, .exprS, (.call (.var "r.findPath")), .none⟩,
+  ⟨0, .define, (.pair (.var "v4") (.var "v3")), (.arg (.arg (.call (.var "v1.HandleEvent")) (.lit "vaxis.FocusIn{}")) (.var "TargetPhase"))⟩,
+  ⟨0, .exprS, (.arg (.call (.var "v0.handleCommand")) (.var "v2")), .none⟩,
+  ⟨0, .ifS, (.bin "!=" (.var "v3") (.var "nil")), .none⟩,
+  ⟨1, .returnS, (.var "v3"), .none⟩,
+  ⟨0, .exprS, (.arg (.call (.var "v0.handleCommand")) (.var "v4")), .none⟩,
+  ⟨0, .returnS, (.var "nil"), .none⟩]
+
+
 end VaxisModel.Lemmas.VxfwBodyExpected
